@@ -435,13 +435,35 @@ func (o OneOfSchema[KeyType]) findUnderlyingType(data any) (KeyType, Object, err
 		}
 		return myKey, mySchemaObj, nil
 	}
+	named := 0
 	for key, ref := range o.TypesValue {
 		underlyingReflectedType := ref.ReflectedType()
+		if underlyingReflectedType != reflectedType {
+			continue
+		}
+		if o.DiscriminatorInlined {
+			// The value holds its discriminator: it selects the member, as it does for Unserialize.
+			selects, known := o.structSelects(data, ref, key)
+			if known {
+				named++
+				if !selects {
+					continue
+				}
+			}
+		}
 		// Several options can be mapped to the same Go type. Pick the same one (the smallest key) every time
 		// instead of the one the map iteration happens to visit last.
-		if underlyingReflectedType == reflectedType && (foundKey == nil || key < *foundKey) {
+		if foundKey == nil || key < *foundKey {
 			keyValue := key
 			foundKey = &keyValue
+		}
+	}
+	if foundKey == nil && named > 0 {
+		return nilKey, nil, &ConstraintError{
+			Message: fmt.Sprintf(
+				"the discriminator field '%s' of the %s value selects none of the members that take such a value",
+				o.DiscriminatorFieldNameValue, reflectedType.String()),
+			Path: []string{o.DiscriminatorFieldNameValue},
 		}
 	}
 	if foundKey == nil {
@@ -465,6 +487,59 @@ func (o OneOfSchema[KeyType]) findUnderlyingType(data any) (KeyType, Object, err
 		}
 	}
 	return *foundKey, o.TypesValue[*foundKey], nil
+}
+
+// structSelects tells whether the inlined discriminator field of the struct value data holds the key of the member;
+// known is false if the member has no field for it to read (it is not mapped to a struct, or the field is not set).
+func (o OneOfSchema[KeyType]) structSelects(data any, member Object, key KeyType) (selects bool, known bool) {
+	if ref, isRef := member.(*RefSchema); isRef && !ref.ObjectReady() {
+		return false, false
+	}
+	converted, isObject := ConvertToObjectSchema(member)
+	if !isObject {
+		return false, false
+	}
+	object, isObject := converted.(*ObjectSchema)
+	if !isObject || object.fieldCache == nil {
+		return false, false
+	}
+	structField, mapped := object.fieldCache[o.DiscriminatorFieldNameValue]
+	if !mapped {
+		return false, false
+	}
+	value := reflect.ValueOf(data)
+	if value.Kind() == reflect.Pointer {
+		if value.IsNil() {
+			// Refused by the member, whichever it is.
+			return false, false
+		}
+		value = value.Elem()
+	}
+	if value.Kind() != reflect.Struct {
+		return false, false
+	}
+	field, err := value.FieldByIndexErr(structField.Index)
+	if err != nil {
+		// Promoted from an embedded pointer to a struct that is nil: not set.
+		return false, false
+	}
+	if field.Kind() == reflect.Pointer {
+		if field.IsNil() {
+			return false, false
+		}
+		field = field.Elem()
+	}
+	// The field holds a native value of the key's kind (a string, an integer of some width): no lenient conversions here.
+	keyValue := reflect.ValueOf(key)
+	switch {
+	case keyValue.Kind() == reflect.String && field.Kind() == reflect.String:
+		return field.String() == keyValue.String(), true
+	case keyValue.CanInt() && field.CanInt():
+		return field.Int() == keyValue.Int(), true
+	case keyValue.CanInt() && field.CanUint():
+		return keyValue.Int() >= 0 && field.Uint() == uint64(keyValue.Int()), true
+	}
+	return false, true
 }
 
 // validateSubtypeDiscriminatorInlineFields checks to see if a subtype's
